@@ -76,8 +76,8 @@ def validate(frame):
     return ["eth.truncated"]
   if d.get("truncated") == "vlan":
     bad.append("vlan.truncated")
-  if "llc" in d:
-    return bad                      # 802.3 / LLC / SNAP: carried opaquely here
+  if "llc" in d and d.get("ethertype") is None:
+    return bad                      # 802.3 / LLC, SNAP with a non-zero OUI: carried opaquely here
   if d.get("ethertype") == F.ETH_ARP:
     if "arp" not in d:
       bad.append("arp.truncated")
